@@ -104,6 +104,15 @@ pub fn req_fits(m: &ReqM) -> bool {
     }
 }
 
+/// does the byte count fit its one-byte field (an empty payload has count 0, which fits)
+pub fn req_count_fits(m: &ReqM) -> bool {
+    match m {
+        ReqM::Wmc(_, b) => (b.len() + 7) / 8 <= 255 && b.len() <= 65535,
+        ReqM::Wmr(_, ws) | ReqM::Rwm(_, _, _, ws) => ws.len() * 2 <= 255,
+        _ => true,
+    }
+}
+
 /// response PDUs; `Wsc` is the spec's five-byte echo whose value field the crate cannot express
 pub fn rsp_bytes(m: &RspM) -> Vec<u8> {
     let mut o = vec![];
